@@ -445,6 +445,9 @@ func execBatch(b Batch) kit.Outcome {
 				}
 			}
 			kit.C.RecordHash(kit.Hash([]byte(sig)), true, "decided-scenario:"+sc.Type)
+			if i < 2 {
+				kit.C.AddSample(sc)
+			}
 		}
 	}
 	kit.C.Label("decided-probes", int64(decidedTotal))
